@@ -100,6 +100,12 @@ binary(struct expr *expr, enum tokenkind op, struct expr *l, struct expr *r)
 	cast(expr);
 }
 
+static bool
+istrue(struct expr *expr)
+{
+	return expr->type->prop & PROPFLOAT ? expr->u.constant.f != 0 : expr->u.constant.u != 0;
+}
+
 struct expr *
 eval(struct expr *expr)
 {
@@ -213,13 +219,18 @@ eval(struct expr *expr)
 			}
 			break;
 		case TLOR:
-			if (l->kind != EXPRCONST)
-				break;
-			return l->u.constant.u ? l : r;
 		case TLAND:
+			/* the result is 0 or 1 of type int, not one of the operands */
 			if (l->kind != EXPRCONST)
 				break;
-			return l->u.constant.u ? r : l;
+			if (istrue(l) == (expr->op == TLOR)) {
+				expr->kind = EXPRCONST;
+				expr->u.constant.u = expr->op == TLOR;
+			} else if (r->kind == EXPRCONST) {
+				expr->kind = EXPRCONST;
+				expr->u.constant.u = istrue(r);
+			}
+			break;
 		default:
 			if (l->kind != EXPRCONST || r->kind != EXPRCONST)
 				break;
